@@ -224,6 +224,14 @@ class SimWorld(object):
             def _init_syshandler(self):
                 self.sys_hdl = SimSysHandler(self)
 
+        real_kill = _real_os.kill
+
+        def global_kill(pid, sig):
+            # anything that reaches the real os.kill (e.g. through
+            # psutil.Process(pid).send_signal) is routed to the simulated
+            # kernel; unknown pids are recorded, never executed
+            return k.kill(pid, sig)
+        self._patch(_real_os, 'kill', global_kill)
         self._patch(circus.process, 'Popen', make_popen(k))
         for mod in (circus.watcher, circus.arbiter, circus.process,
                     circus.commands.base, circus.util, circus.controller):
